@@ -192,6 +192,44 @@ theorem update_overuse_85 {fl : AimdFloats} {a : Aimd} {est : Option Int} {now :
   have := h85 r85 hf
   omega
 
+/-- **Over-use cuts to exactly `round(0.85·m)`** — the value the harness oracle recomputes from the inputs and
+compares with the reported estimate: the clamp cannot bind when `round(0.85·m) ≤ int(1.5·m) + 10000`
+(a float fact for `m ≥ 0`, checked by `misc:hyp` on every run).  With `update_overuse_cut` this says that an
+over-use report reveals the measurement the controller worked with. -/
+theorem update_overuse_exact {fl : AimdFloats} {a : Aimd} {est : Option Int} {now : Int}
+    {a' : Aimd} {v : Int} (h : updateWith fl a .overusing est now = .ok (a', some v))
+    (hle : ∀ r f, fl.round85 (est.getD a.latest) = .ok r → fl.int15 (est.getD a.latest) = .ok f → r ≤ f + 10000) :
+    fl.round85 (est.getD a.latest) = .ok v := by
+  obtain ⟨a4, nb, f15, hb, hf, hv, _⟩ := updateWith_some h
+  have e2 := effective_snd (stateStep (initStep a est now) .overusing now) est
+  have hl : (stateStep (initStep a est now) .overusing now).latest = a.latest := by
+    rw [(stateStep_current _ _ _).2.1, (initStep_fields _ _ _).1]
+  have hs : (effective (stateStep (initStep a est now) .overusing now) est).1.state = .decrease := by
+    rw [(effective_fst_fields _ _).2.1, stateStep_overusing]
+  obtain ⟨h85, _⟩ := bitrateStep_decrease hs hb
+  rw [e2, hl] at h85 hf
+  have hn := hle nb f15 h85 hf
+  have : v = nb := by
+    rw [hv]; unfold clamp; simp only [Gen.RATE_CLAMP_OFFSET]; omega
+  rw [this]; exact h85
+
+/-- **Every update that reports records the measurement it was given as the latest one — a measurement of
+exactly 0 bit/s (only empty packets in the window) included** — and an update without a measurement
+(`RateCounter.rate` returned `None`) keeps the latest one.  Together with `update_cap` /
+`update_overuse_cut` (whose `m` is `est.getD a.latest`): the bounds always refer to the latest measurement. -/
+theorem update_records_measurement {fl : AimdFloats} {a : Aimd} {u : Usage} {est : Option Int} {now : Int}
+    {a' : Aimd} {v : Int} (h : updateWith fl a u est now = .ok (a', some v)) :
+    a'.latest = est.getD a.latest := by
+  obtain ⟨a4, nb, f15, hb, _, _, ha⟩ := updateWith_some h
+  have hl : (stateStep (initStep a est now) u now).latest = a.latest := by
+    rw [(stateStep_current _ _ _).2.1, (initStep_fields _ _ _).1]
+  rw [ha]
+  show a4.latest = _
+  rw [(bitrateStep_fields hb).2.2.1]
+  cases est with
+  | none => simpa [effective] using hl
+  | some m => simp [effective]
+
 /-! ### the division by zero of `_near_max_rate_increase` (DESIGN.md §4 row 16) -/
 
 /-- On the pinned tree `packets_per_frame = math.ceil(…)` is 0 whenever `current_bitrate` is 0 and the
@@ -237,6 +275,11 @@ theorem updateWith_none {fl : AimdFloats} {a : Aimd} {u : Usage} {est : Option I
   · cases h; rfl
   · repeat' split at h
     all_goals cases h
+
+/-- an update that does not report (waiting for initialisation) leaves the latest measurement untouched -/
+theorem update_wait_keeps_latest {fl : AimdFloats} {a : Aimd} {u : Usage} {est : Option Int} {now : Int}
+    {a' : Aimd} (h : updateWith fl a u est now = .ok (a', none)) : a'.latest = a.latest := by
+  rw [updateWith_none h]; exact (initStep_fields a est now).1
 
 theorem stateStep_state (a : Aimd) (u : Usage) (now : Int) :
     ((stateStep a u now).state = .increase → ∃ l, (stateStep a u now).lastChange = some l ∨ a.state = .increase) ∧
@@ -749,6 +792,22 @@ theorem global_window_exact {c : RateCounter} {init : Bool} {G : List Sample} {l
   rw [hz]
   apply Bucket.ext' <;> simp [Bucket.add, Bucket.zero]
 
+/-- **Packets that share one arrival millisecond are all counted** — in particular the further packets of a
+burst that arrives in the same millisecond as the packet which started or restarted the window (the first
+frame of the stream, the first frame after an idle period ≥ 1000 ms, when `rate()` is `None` for BOTH packets):
+after two `countStep`s at the same `now` the total is the total over the earlier history plus both packets. -/
+theorem burst_same_ms_counted {c : RateCounter} {init : Bool} {G : List Sample} {last : Int}
+    (g : GInv c init G last) (s1 s2 now : Int) (hmono : last ≤ now) :
+    ∃ c1 i1 c2 i2, Rbe.countStep c init s1 now = .ok (c1, i1) ∧ Rbe.countStep c1 i1 s2 now = .ok (c2, i2) ∧
+      c2.total = Bucket.add (Bucket.add (agg (inWindow 1000 now) G) ⟨1, s1⟩) ⟨1, s2⟩ := by
+  obtain ⟨c1, i1, h1, g1⟩ := countStep_ok g s1 now hmono
+  obtain ⟨c2, i2, h2, g2⟩ := countStep_ok g1 s2 now (Int.le_refl _)
+  refine ⟨c1, i1, c2, i2, h1, h2, ?_⟩
+  rw [global_window_exact g2]
+  have hin : inWindow 1000 now now = true := by
+    unfold inWindow; simp only [Bool.and_eq_true, decide_eq_true_eq]; omega
+  simp only [agg, hin, if_true]
+
 /-! ## RemoteBitrateEstimator.add: SSRC list, bounds, invariant over whole arrival histories -/
 
 /-- first-seen-order set insertion (what a Python `dict` does with its keys) -/
@@ -1086,6 +1145,21 @@ example : retOf (updateWith exactFloats afterTwoOveruses .normal (some 0) 3200) 
 example : retOf (updateWith exactFloats (stOf (updateWith exactFloats afterTwoOveruses .normal (some 0) 3200))
     .normal (some 0) 3300) = some 400 := by decide
 
+/-- a measurement of exactly 0 bit/s is a measurement: after an over-use at 163200 bit/s, an over-use at a measured 0
+reports 0 (not 85 % of the stale 163200), records 0 as the latest measurement, and a further over-use without a
+measurement works with that 0 -/
+def afterOveruseAtZero : Aimd :=
+  stOf (updateWith exactFloats (stOf (updateWith exactFloats Aimd.new .overusing (some 163200) 0)) .overusing (some 0) 600)
+example : retOf (updateWith exactFloats Aimd.new .overusing (some 163200) 0) = some 138720 := by decide
+example : retOf (updateWith exactFloats (stOf (updateWith exactFloats Aimd.new .overusing (some 163200) 0)) .overusing (some 0) 600)
+    = some 0 := by decide
+example : afterOveruseAtZero.latest = 0 := by decide
+example : retOf (updateWith exactFloats afterOveruseAtZero .overusing none 700) = some 0 := by decide
+/-- the hypothesis of `update_overuse_exact` holds for `exactFloats` on measurements `m ≥ 0` -/
+example : ∀ m r f, 0 ≤ m → exactFloats.round85 m = .ok r → exactFloats.int15 m = .ok f → r ≤ f + 10000 := by
+  intro m r f hm h1 h2; cases h1; cases h2
+  have := (roundDivHalfEven_spec (85 * m) 100 (by decide)).2.1
+  omega
 /-- hypotheses of `update_never_rises_above` / `update_overuse_85` / `SignFacts` hold for `exactFloats` -/
 example : ∀ m f, exactFloats.int15 m = .ok f → f ≤ 3 * m / 2 := by
   intro m f h; cases h; exact Int.le_refl _
